@@ -421,6 +421,17 @@ def as_seq(ex, st, v, for_iter=False, allow_filtered=False):
     if isinstance(v, VOpaque):
         # iterating an unknown iterable: an unknown number of unknown elements
         return [(st, ex.fresh(st, 'list[opaque]', 'iter'))]
+    if isinstance(v, VObj) and not v.cls.startswith('$'):
+        ci = ex.class_info(v.cls)
+        fi = ex.db.find_method(ci, '__iter__') if ci else None
+        if fi is not None:
+            res = []
+            for s2, it in ex.call_function(st, fi, [v], {}, None, force_inline=True):
+                if isinstance(it, Raised):
+                    res.append((s2, it))
+                else:
+                    res.extend(as_seq(ex, s2, it, for_iter))
+            return res
     raise Unsupported('iteration over %r' % (v,))
 
 
@@ -1114,12 +1125,23 @@ def b_id(ex, st, args, kwargs, node):
 
 @builtin('iter')
 def b_iter(ex, st, args, kwargs, node):
-    raise Unsupported('iter()')
+    if len(args) == 1:
+        return as_seq(ex, st, args[0])
+    raise Unsupported('iter(callable, sentinel)')
 
 
 @builtin('next')
 def b_next(ex, st, args, kwargs, node):
-    raise Unsupported('next()')
+    # next(it) on a sequence view: its first element (StopIteration if empty); the iterator state is not advanced
+    # (only single next() uses are supported)
+    res = []
+    for s2, sq in as_seq(ex, st, args[0]):
+        if isinstance(sq, Raised):
+            res.append((s2, sq))
+            continue
+        for s3, b in ex.branch(s2, sq.length() > 0):
+            res.append((s3, sq.elem(z3.IntVal(0)) if b else (args[1] if len(args) > 1 else Raised('StopIteration'))))
+    return res
 
 
 @builtin('callable')
